@@ -3,7 +3,9 @@ Synchronisation skeletons and lock discipline criteria (property C20).
 
 `tools/skelgen` extracts from the Go source, for every configured function, a *skeleton*: the tree of
 lock operations, calls, goroutine spawns, channel operations and accesses to guarded variables in
-program order (`LiskVerif/Gen/Skeletons.lean`, regenerated on every check run).
+program order (`LiskVerif/Gen/Skeletons*.lean`, regenerated on every check run; besides C20 the
+transaction pool (C14, `Props/C14_Locks.lean`) and the p2p request/response layer (C17,
+`Props/C17_Skel.lean`) are extracted the same way).
 
 This file contains (core Lean only):
   * the skeleton datatype `Act` / `Skel`;
@@ -36,9 +38,13 @@ inductive Act where
   | go (body : List Act)       -- goroutine spawn (go statement, errgroup.Go, returned handler)
   | send (ch : String)         -- send on a possibly unbuffered channel
   | recv (ch : String)
+  | trySend (ch : String)      -- send in a `select` with a `default` branch: never blocks
+  | tryRecv (ch : String)      -- receive in a `select` with a `default` branch: never blocks
+  | makeChan (ch : String) (cap : Nat)  -- ch = make(chan T, cap) (cap = 0: unbuffered)
   | wait (g : String)          -- WaitGroup / errgroup Wait
   | read (x : String)          -- read of a guarded variable
   | write (x : String)         -- write of a guarded variable
+  | del (x : String)           -- delete(x, key) on a guarded map: a write of x
   | slot (x : String)          -- write of a per-goroutine slot `x[i]` of a captured slice
   | choice (alts : List (List Act))
   | loop (body : List Act)
@@ -189,9 +195,13 @@ def denFirst (tbl : Table) (u : Nat) (rec : List Act → List Run) (a : Act) : L
   | .go b => [⟨[], [], false, [b]⟩]
   | .send ch => [⟨[.block ch], [], false, []⟩]
   | .recv ch => [⟨[.block ch], [], false, []⟩]
+  | .trySend _ => [⟨[], [], false, []⟩]      -- non-blocking, touches neither a lock nor a guarded variable
+  | .tryRecv _ => [⟨[], [], false, []⟩]
+  | .makeChan _ _ => [⟨[], [], false, []⟩]
   | .wait g => [⟨[.block g], [], false, []⟩]
   | .read x => [⟨[.read x], [], false, []⟩]
   | .write x => [⟨[.write x], [], false, []⟩]
+  | .del x => [⟨[.write x], [], false, []⟩]
   | .slot _ => [⟨[], [], false, []⟩]
   | .choice alts => alts.flatMap fun alt => rec alt
   | .loop b => (List.range (u + 1)).flatMap fun i => iterRuns (rec b) i   -- 0 .. u iterations
@@ -281,9 +291,13 @@ def anFirst (tbl : Table) (rec : List ASt → List Act → Option Res) (sts : Li
       some ⟨rb.obs ++ ex.1 ++ (if ex.2.all (·.isEmpty) then [] else [([], Prim.bad "goroutine ends holding a lock")]), sts, []⟩
   | .send ch => some (stepAll sts (.block ch))
   | .recv ch => some (stepAll sts (.block ch))
+  | .trySend _ => some ⟨[], sts, []⟩
+  | .tryRecv _ => some ⟨[], sts, []⟩
+  | .makeChan _ _ => some ⟨[], sts, []⟩
   | .wait g => some (stepAll sts (.block g))
   | .read x => some (stepAll sts (.read x))
   | .write x => some (stepAll sts (.write x))
+  | .del x => some (stepAll sts (.write x))
   | .slot _ => some ⟨[], sts, []⟩
   | .choice alts => foldChoice (fun alt => rec sts alt) alts
   | .loop b =>
@@ -480,5 +494,113 @@ def appInit (items : List Nat) : AppState := ⟨[], items.map (fun x => ⟨x, []
 /-- per-index result slots: goroutine `i` stores its item into slot `i` (a write list in schedule order) -/
 def applyWrites {α} (ws : List (Nat × α)) (arr : List (Option α)) : List (Option α) :=
   ws.foldl (fun a w => a.set w.1 (some w.2)) arr
+
+/-! ## Event paths: order properties inside one function body
+
+The criteria above see a function through its lock / communication / access primitives with calls
+inlined. Order properties ("the response channel is registered before the request is sent", "every
+path unregisters before it returns") are about the *events* of one body: its leaf actions in program
+order with calls kept as events. Spawned bodies are skipped (they run on another goroutine). -/
+
+/-- One intraprocedural run: the leaf actions executed in program order, whether the run ended in a
+`return`, and whether it is complete (`false`: cut off by the fuel bound — every check fails on it). -/
+structure EvRun where
+  evs : List Act
+  returned : Bool
+  complete : Bool
+  deriving Repr
+
+/-- sequential composition: a run that returned (or was cut off) skips what follows -/
+def seqEv (rs1 rs2 : List EvRun) : List EvRun :=
+  rs1.flatMap fun r1 =>
+    if r1.returned || !r1.complete then [r1] else
+      rs2.map fun r2 => ⟨r1.evs ++ r2.evs, r2.returned, r2.complete⟩
+
+/-- exactly `i` iterations of a loop body (fewer if an iteration returns) -/
+def iterEv (body : List EvRun) : Nat → List EvRun
+  | 0 => [⟨[], false, true⟩]
+  | i + 1 => seqEv (iterEv body i) body
+
+def evFirst (u : Nat) (rec : List Act → List EvRun) (a : Act) : List EvRun :=
+  match a with
+  | .choice alts => alts.flatMap fun alt => rec alt
+  | .loop b => (List.range (u + 1)).flatMap fun i => iterEv (rec b) i
+  | .go _ => [⟨[], false, true⟩]
+  | .ret => [⟨[], true, true⟩]
+  | a => [⟨[a], false, true⟩]
+
+/-- `evRuns u n k` — the runs of the body `k`, every loop iterated at most `u` times. When the fuel `n`
+runs out the run is marked incomplete instead of being dropped. -/
+def evRuns (u : Nat) : Nat → List Act → List EvRun
+  | 0, _ => [⟨[], false, false⟩]
+  | _ + 1, [] => [⟨[], false, true⟩]
+  | n + 1, a :: k => seqEv (evFirst u (evRuns u n) a) (evRuns u n k)
+
+/-- a body without loops: `evRuns` then enumerates *all* its runs, whatever the bound `u` -/
+def loopFree : Nat → List Act → Bool
+  | 0, _ => false
+  | _ + 1, [] => true
+  | n + 1, a :: k =>
+    (match a with
+     | .loop _ => false
+     | .choice alts => alts.all (loopFree n)
+     | _ => true) && loopFree n k
+
+/-- event predicates -/
+def Act.isWrite (x : String) : Act → Bool
+  | .write y => x == y
+  | _ => false
+def Act.isDel (x : String) : Act → Bool
+  | .del y => x == y
+  | _ => false
+def Act.isCall (f : String) : Act → Bool
+  | .call g => f == g
+  | _ => false
+/-- creation of a channel with capacity at least `c` -/
+def Act.isMakeChanGe (c : Nat) : Act → Bool
+  | .makeChan _ n => c ≤ n
+  | _ => false
+def Act.isMakeChan : Act → Bool
+  | .makeChan _ _ => true
+  | _ => false
+/-- a possibly blocking communication -/
+def Act.isBlocking : Act → Bool
+  | .send _ => true
+  | .recv _ => true
+  | .wait _ => true
+  | _ => false
+
+/-- a flag along a run: set by the events `on`, cleared by the events `off` -/
+def flagStep (on off : Act → Bool) (f : Bool) (a : Act) : Bool :=
+  if on a then true else if off a then false else f
+
+def flagAfter (on off : Act → Bool) : Bool → List Act → Bool
+  | f, [] => f
+  | f, a :: p => flagAfter on off (flagStep on off f a) p
+
+/-- at every event satisfying `at_` the flag is set -/
+def flagSetAt (on off at_ : Act → Bool) : Bool → List Act → Bool
+  | _, [] => true
+  | f, a :: p => (if at_ a then f else true) && flagSetAt on off at_ (flagStep on off f a) p
+
+def evFuel : Nat := 200
+
+/-- every run of the body is complete and ends with the flag clear
+("whatever was registered by `on` has been unregistered by `off` when the function is left") -/
+def clearedOnAllPaths (on off : Act → Bool) (u : Nat) (s : Skel) : Bool :=
+  (evRuns u evFuel s).all fun r => r.complete && !flagAfter on off false r.evs
+
+/-- on every run of the body, every event `at_` happens while the flag is set
+("`on` happens before `at_`, and is not undone in between") -/
+def setWheneverAt (on off at_ : Act → Bool) (u : Nat) (s : Skel) : Bool :=
+  (evRuns u evFuel s).all fun r => r.complete && flagSetAt on off at_ false r.evs
+
+/-- some run of the body contains an event satisfying `p` (non-vacuity of the checks above) -/
+def someRunHas (p : Act → Bool) (u : Nat) (s : Skel) : Bool :=
+  (evRuns u evFuel s).any fun r => r.evs.any p
+
+/-- every event of every run satisfies `p` -/
+def allEvents (p : Act → Bool) (u : Nat) (s : Skel) : Bool :=
+  (evRuns u evFuel s).all fun r => r.complete && r.evs.all p
 
 end LiskVerif.Locks
